@@ -19,6 +19,7 @@ type HTTPNode struct {
 	*BaseNode
 	URL        *url.URL // stores url pointing actual remote file. (e.g. with Taskfile.yml)
 	entrypoint string   // stores entrypoint url. used for building graph vertices.
+	insecure   bool     // whether plain http may be used (--insecure)
 }
 
 func NewHTTPNode(
@@ -40,7 +41,26 @@ func NewHTTPNode(
 		BaseNode:   base,
 		URL:        url,
 		entrypoint: entrypoint,
+		insecure:   insecure,
 	}, nil
+}
+
+// client returns the HTTP client that all requests of the node are made with.
+// It follows redirects like [http.DefaultClient], except that a redirect to a
+// plain http URL is refused unless insecure connections are allowed: an https
+// entrypoint must not end up being downloaded over http.
+func (node *HTTPNode) client() *http.Client {
+	return &http.Client{
+		CheckRedirect: func(req *http.Request, via []*http.Request) error {
+			if req.URL.Scheme == "http" && !node.insecure {
+				return &errors.TaskfileNotSecureError{URI: req.URL.String()}
+			}
+			if len(via) >= 10 {
+				return errors.New("stopped after 10 redirects")
+			}
+			return nil
+		},
+	}
 }
 
 func (node *HTTPNode) Location() string {
@@ -52,7 +72,8 @@ func (node *HTTPNode) Read() ([]byte, error) {
 }
 
 func (node *HTTPNode) ReadContext(ctx context.Context) ([]byte, error) {
-	url, err := RemoteExists(ctx, node.URL)
+	client := node.client()
+	url, err := RemoteExists(ctx, client, node.URL)
 	if err != nil {
 		return nil, err
 	}
@@ -62,10 +83,13 @@ func (node *HTTPNode) ReadContext(ctx context.Context) ([]byte, error) {
 		return nil, errors.TaskfileFetchFailedError{URI: node.URL.String()}
 	}
 
-	resp, err := http.DefaultClient.Do(req.WithContext(ctx))
+	resp, err := client.Do(req.WithContext(ctx))
 	if err != nil {
 		if ctx.Err() != nil {
 			return nil, err
+		}
+		if notSecure := (&errors.TaskfileNotSecureError{}); errors.As(err, &notSecure) {
+			return nil, notSecure
 		}
 		return nil, errors.TaskfileFetchFailedError{URI: node.URL.String()}
 	}
